@@ -16,7 +16,9 @@ EXTENDS Naturals, Sequences, FiniteSets, TLC, Json, Utf8, Domains
 CONSTANTS SubjectNames,  \* names of catalogue entries to explore
           NSlots,        \* size of the slot pool
           MaxOps,        \* bound on history length
-          MaxGhost,      \* bound on content-invisible operations per history
+          MaxGhost,      \* bound on content-invisible operations per history (their kinds are kept
+                         \* in `ghost`, which is part of the view: BFS extends only ONE path per
+                         \* view state, so what must be continued separately must be in the view)
           DomSize,       \* how many values of the per-shape domain are used
           Ops,           \* enabled state-changing operations
           Queries,       \* enabled read-only operations (self-loops)
@@ -53,7 +55,7 @@ FreshSlot == [st |-> InitR(Sh), issued |-> <<>>]
 
 Init == /\ subj \in Subjects
         /\ slots = [s \in SlotIds |-> [st |-> InitR(subj.shape), issued |-> <<>>]]
-        /\ ghost = 0
+        /\ ghost = <<>>
         /\ path = <<>>
         /\ res = [ok |-> TRUE]
 
@@ -83,36 +85,36 @@ Copy(o, d, s) ==
   /\ d # s
   /\ o \in {"clone", "clone_from"} => subj.caps.clone
   /\ o = "serde" => subj.caps.serde
-  /\ ghost < MaxGhost
+  /\ Len(ghost) < MaxGhost
   /\ slots' = [slots EXCEPT ![d] = slots[s]]
   /\ path' = Append(path, [op |-> o, d |-> d, s |-> s])
-  /\ ghost' = ghost + 1
+  /\ ghost' = Append(ghost, <<o>>)
   /\ res' = [ok |-> TRUE]
   /\ UNCHANGED subj
 
 Merge(d, srcs) ==
-  /\ ghost < MaxGhost
+  /\ Len(ghost) < MaxGhost
   /\ slots' = [slots EXCEPT ![d] = [st |-> MergeR(Sh, [i \in 1..Len(srcs) |-> slots[srcs[i]].st]),
                                     issued |-> <<>>]]
   /\ path' = Append(path, [op |-> "merge", d |-> d, srcs |-> srcs])
-  /\ ghost' = ghost + 1
+  /\ ghost' = Append(ghost, <<"merge", srcs>>)
   /\ res' = [ok |-> TRUE]
   /\ UNCHANGED subj
 
 \* pre-sizing: invisible on contents (C10); only the capacity ledger of Alloc.tla changes
 ReserveRegions(s, srcs) ==
   /\ subj.caps.reserve_regions
-  /\ ghost < MaxGhost
+  /\ Len(ghost) < MaxGhost
   /\ path' = Append(path, [op |-> "reserve_regions", s |-> s, srcs |-> srcs])
-  /\ ghost' = ghost + 1
+  /\ ghost' = Append(ghost, <<"reserve_regions", s>>)
   /\ res' = [ok |-> TRUE]
   /\ UNCHANGED <<subj, slots>>
 
 ReserveItems(s, f, vs) ==
   /\ f \in 1..Len(subj.reserve_forms)
-  /\ ghost < MaxGhost
+  /\ Len(ghost) < MaxGhost
   /\ path' = Append(path, [op |-> "reserve_items", s |-> s, f |-> f - 1, vs |-> vs])
-  /\ ghost' = ghost + 1
+  /\ ghost' = Append(ghost, <<"reserve_items", s>>)
   /\ res' = [ok |-> TRUE]
   /\ UNCHANGED <<subj, slots>>
 
@@ -143,6 +145,14 @@ BorrowQ(s, i) ==
   /\ i \in 1..Len(slots[s].issued)
   /\ Query([op |-> "borrow", s |-> s, i |-> i - 1], slots[s].issued[i].v)
 
+\* ==, partial_cmp, cmp between two read items: region-backed both, or the second one borrowed
+\* from its owned form (rep = "owned")
+CmpQ(s, i, s2, i2, rep) ==
+  /\ subj.caps.cmp
+  /\ i \in 1..Len(slots[s].issued) /\ i2 \in 1..Len(slots[s2].issued)
+  /\ Query([op |-> "cmp", s |-> s, i |-> i - 1, s2 |-> s2, i2 |-> i2 - 1, rep |-> rep],
+           CmpAnswer(Sh, slots[s].issued[i].v, slots[s2].issued[i2].v))
+
 Enabled(o) == o \in Ops
 EnabledQ(q) == q \in Queries
 
@@ -161,6 +171,8 @@ Next ==
                               Get(s, i, pos, rep)
      \/ EnabledQ("clone_onto") /\ \E s \in SlotIds, i \in 1..MaxOps, ti \in DomIdx : CloneOntoQ(s, i, DomAt(ti))
      \/ EnabledQ("borrow") /\ \E s \in SlotIds, i \in 1..MaxOps : BorrowQ(s, i)
+     \/ EnabledQ("cmp") /\ \E s \in SlotIds, s2 \in SlotIds, i \in 1..MaxOps, i2 \in 1..MaxOps, rep \in {"region", "owned"} :
+                              CmpQ(s, i, s2, i2, rep)
 
 Spec == Init /\ [][Next]_vars
 
@@ -255,6 +267,37 @@ GetExact ==
 \* C14: clone_onto(x, t) leaves t equal to x whatever t held before
 CloneOntoLaw == \A s \in SlotIds : \A i \in 1..Len(slots[s].issued) : \A ti \in DomIdx :
                   CloneOnto(Sh, slots[s].issued[i].v, DomAt(ti)) = slots[s].issued[i].v
+
+\* C17 (the rule): what each pre-sizing call reserves is enough for exactly the announced contents
+IssuedVals(sl) == [i \in 1..Len(sl.issued) |-> sl.issued[i].v]
+RECURSIVE SrcVals(_)
+SrcVals(srcs) == IF srcs = <<>> THEN <<>> ELSE IssuedVals(slots[Head(srcs)]) \o SrcVals(Tail(srcs))
+ReserveItemsSufficient ==
+  Structural(Sh) =>
+    \A s \in SlotIds : \A bi \in BatchIdx :
+      Fits(StorLens(Sh, PushAll(Sh, slots[s].st, BatchAt(bi))),
+           AddSeqs(StorLens(Sh, slots[s].st), ReserveItemsAmt(Sh, BatchAt(bi))))
+ReserveRegionsSufficient ==
+  Structural(Sh) =>
+    \A s \in SlotIds : \A srcs \in SrcLists :
+      LET states == [i \in 1..Len(srcs) |-> slots[srcs[i]].st]
+      IN  /\ Fits(StorLens(Sh, PushAll(Sh, slots[s].st, SrcVals(srcs))),
+                  AddSeqs(StorLens(Sh, slots[s].st), ReserveRegionsAmt(Sh, states)))
+          \* merge_regions: an empty region with capacity for the sources' contents
+          /\ Fits(StorLens(Sh, PushAll(Sh, MergeR(Sh, states), SrcVals(srcs))), ReserveRegionsAmt(Sh, states))
+
+\* C15: the comparison oracle is a consistent total order on the domain (validates the oracle)
+OrderLaws ==
+  subj.caps.cmp =>
+    \A a \in DomIdx, b \in DomIdx, c \in DomIdx :
+      LET ab == CmpV(Sh, DomAt(a), DomAt(b))
+          bc == CmpV(Sh, DomAt(b), DomAt(c))
+          ac == CmpV(Sh, DomAt(a), DomAt(c))
+      IN  /\ CmpV(Sh, DomAt(a), DomAt(a)) = "eq"
+          /\ CmpV(Sh, DomAt(b), DomAt(a)) = Flip(ab)
+          /\ (ab = "eq") <=> (a = b)
+          /\ (ab = "lt" /\ bc = "lt") => ac = "lt"
+          /\ (ab = "lt" /\ bc = "eq") => ac = "lt"
 
 \* C18: used bytes never decrease on push (the last operation is visible in path')
 UsedMonotone ==
